@@ -223,6 +223,9 @@ pub struct World {
     /// a completed call future alive for a while, and whether they pause between a successful
     /// `poll_ready` and `call` — both legal for a Tower client (see actors.rs)
     pub habits: AtomicU64,
+    /// the next this-many `poll_ready` calls on any probe of this world fail with class 6 (set by the
+    /// director: a backend whose readiness fails for a moment and then recovers)
+    pub ready_faults: AtomicU64,
 }
 
 impl World {
@@ -234,6 +237,7 @@ impl World {
             t0: Mutex::new(None),
             std0: std::time::Instant::now(),
             habits: AtomicU64::new(0),
+            ready_faults: AtomicU64::new(0),
             st: Mutex::new(Inner {
                 log: Vec::new(),
                 seq: 0,
@@ -464,6 +468,12 @@ impl tower::Service<Req> for Probe {
     type Future = ProbeFut;
 
     fn poll_ready(&mut self, cx: &mut Context<'_>) -> Poll<Result<(), PErr>> {
+        if self.w.ready_faults.load(Ordering::SeqCst) > 0 {
+            self.w.ready_faults.fetch_sub(1, Ordering::SeqCst);
+            let serial = self.w.next_serial();
+            self.w.log(Ev::InnerReady { inst: self.inst, res: 2 });
+            return Poll::Ready(Err(PErr { serial, req_id: u64::MAX, class: 6 }));
+        }
         let (res, code) = match self.ready {
             ReadyScript::Always => (Poll::Ready(Ok(())), 0),
             ReadyScript::PendN(_) => {
